@@ -717,6 +717,8 @@ class Step(Node):
             "SELECT state, _holding FROM step WHERE node = :node", {"node": self.i}
         ).fetchone()
         still_running = old_row is not None and old_row[0] == StepState.RUNNING.value
+        if still_running:
+            self.graph.declared_again.add(self.i)
         self.db.execute("DELETE FROM step WHERE node = :node", {"node": self.i})
 
         # The `step_hash`/`step_outcome` satellite rows are untouched
